@@ -77,6 +77,11 @@ def _run_all(ctx0, binary):
         if rc != 0:
             raise vlib.Infra("sched scenario driver failed:\n" + o[-3000:])
         validate_parallel(ctx, out2 + "/trace.ndjson", "scenarios", chunks=3, classify=everything)
+        out2b = ctx.sub("upstream")
+        rc, o = vlib.run_driver(binary, "TestUpstream", out2b, ctx.seed, timeout=900)
+        if rc != 0:
+            raise vlib.Infra("sched upstream-scenario driver failed:\n" + o[-3000:])
+        validate_parallel(ctx, out2b + "/trace.ndjson", "upstream", chunks=6, classify=everything)
         out3 = ctx.sub("fair")
         rc, o = vlib.run_driver(binary, "TestFairness", out3, ctx.seed, env={"VERIF_N": 30 if ctx.quick() else 200}, timeout=1500)
         if rc != 0:
